@@ -429,7 +429,7 @@ def run(chk):
     model = Proc([common.build_model("c11")], timeout=60.0)
     mos = common.build_mos()
     thorough = chk.tier == "thorough"
-    nprog = 600 if thorough else 80
+    nprog = 480 if thorough else 80
     nbuild = 120 if thorough else 20
     workdir = os.path.join(common.CACHE, "work")
     os.makedirs(workdir, exist_ok=True)
@@ -451,7 +451,7 @@ def run(chk):
         dist["with_imports"] += 1 if "import" in kinds else 0
         dist["with_loops"] += 1 if "loop" in kinds else 0
         # all of 1..16 on every 4th program, otherwise a random subset that always contains a small and a large width
-        ns = ALL_NS if i % 4 == 0 else sorted(set([rng.randrange(1, 4), rng.randrange(4, 9), rng.randrange(9, 17)]))
+        ns = ALL_NS if i % 8 == 0 else sorted(set([rng.randrange(1, 4), rng.randrange(4, 9), rng.randrange(9, 17)]))
         check_case(chk, probe, model, case, [False, True], ns, rng, dist)
         if i < nbuild:
             check_build(chk, mos, probe, model, case, rng.choice(ALL_NS), workdir, dist)
@@ -461,7 +461,7 @@ def run(chk):
                        "(data/text/instructions with literal, macro-argument, import-parameter and label operands; blocks, labelled "
                        "blocks, loops, conditionals, macros calling macros, imports with parameters, 0-3 segments: disjoint / "
                        "overlapping / relocated to the same target; `* =`, .align; multi-line spans; non-ASCII comments) x macro "
-                       "attribution mode (definition / invocation) x bytes-per-line (all of 1..16 on every 4th program, else 3 widths); "
+                       "attribution mode (definition / invocation) x bytes-per-line (all of 1..16 on every 8th program and on every corpus witness, else 3 widths); every 10th program contains a macro whose body fails in an intermediate pass only (transient `branch too far`); "
                        "one evaluation = one (program, mode, width, file) listing compared row by row with the extracted spec on the "
                        "generator's emissions and with the rendered model; non-trivial = the program emitted at least one entry; "
                        "plus address/line queries and end-to-end `mos build` .lst files")
